@@ -14,10 +14,12 @@
        offence in reading order, at that offence's line and file (C02_reject_semantic, C02_read_reject_semantic;
        the position of a mismatched STRING element is that of the token after it: known finding F4);
      - rejection of underivable token lists (C02_reject_underivable) and the messages (C02_messages).
+     - totality (C02_total, from ParseTotal.v): on every token stream that contains its end-of-input or error
+       token - every stream the scanner delivers (C03_scanner_total) - the answer is POk or PErr: the fuel always
+       suffices and no action meets an impossible tree, also on rejected inputs.
    NOT proved: that a syntax error is reported at the first token that cannot continue a derivation (the
    viable-prefix property of the LALR automaton; the model's recursive descent is proved equivalent on
-   acceptance only), and that the fuel suffices on rejected inputs (PStuck is excluded for accepted and for
-   semantically rejected derivations only).  Both are tied on every run by the exhaustive-bounded token-sequence
+   acceptance and on semantic errors only).  That is tied on every run by the exhaustive-bounded token-sequence
    correspondence against the real library and against a reference parser written from the manual
    (pygen/refparse.py).
    The parser model is a recursive-descent function performing the grammar.y actions in bison's order;
@@ -28,7 +30,7 @@
 From Coq Require Import List ZArith Bool.
 Import ListNotations.
 From LC Require Import Base Tree Fp Lookup Api ScanAction Tokens Lexer Parser GrammarFacts Reader Writer WriterFacts LexWrite ParseWrite
-  ParseComplete ParseFail ParseExact.
+  ParseComplete ParseFail ParseExact ParseTotal.
 From LC.gen Require Import Consts.
 Local Open Scope Z_scope.
 
@@ -142,6 +144,13 @@ Theorem C02_reject_underivable : forall ov root0 lts,
   forall s', p_config ov (mkP root0 lts false O 0 None) <> POk s'.
 Proof. exact reject_underivable. Qed.
 Print Assumptions C02_reject_underivable.
+
+(* ---- never stuck, never past the end: accepted or rejected, whatever the tokens ---- *)
+Theorem C02_total : forall ov s,
+  has_stop (ptoks s) -> s_ty (p_root s) = TGroup ->
+  match p_config ov s with POk _ | PErr _ _ => True | _ => False end.
+Proof. exact p_config_total. Qed.
+Print Assumptions C02_total.
 
 (* ---- the same for config_read (nesting within the parser stack limit) ---- *)
 Theorem C02_read_accept_iff : forall atof FS c top text,
